@@ -222,3 +222,82 @@ def _result_use(cf, f, b, i, stmt, call):
     if cf.must_pass(b, targets, through):
         return ('checked', 'local %s is tested or returned on every path before being overwritten' % lv[1])
     return ('unchecked', 'local %s receives the result but some path reaches a redefinition or the exit without testing it' % lv[1])
+
+
+# ------------------------------------------------------------------ T-EFFECT (control dependence)
+
+def controlled_region(cf, g, pol):
+    """blocks executed only when the branch of block g takes polarity pol
+    (edge-dominated by that edge), excluding the join"""
+    succ = [s for s, p in cf.edges(g) if p is pol]
+    if not succ:
+        return set()
+    s0 = succ[0]
+    return {b for b in (cf.reachable_from(g) | {s0}) if cf.edge_dominates(g, s0, b) and not cf.postdominates(b, g)}
+
+
+def region_effects(cf, f, region):
+    """(stores, returns, calls) inside a set of blocks: stores as (node, lvalue)"""
+    stores, rets, calls = [], [], []
+    for b in region:
+        for s in f.block_exprs(cf.blocks[b]):
+            if sx.kind(s) == 'ret':
+                rets.append(s)
+            for n in sx.walk(s):
+                if n[0] in ('assign', 'cassign', 'inc'):
+                    lv = sx.strip_paren(n[1] if n[0] == 'assign' else (n[2] if n[0] == 'cassign' else n[3]))
+                    stores.append((n, lv))
+                elif n[0] == 'decls':
+                    for d in n[1]:
+                        if d[0] == 'decl' and d[3] is not None:
+                            stores.append((n, ['local', d[1], d[2]]))
+                elif n[0] == 'call':
+                    calls.append(n)
+    return stores, rets, calls
+
+
+def locals_live_out(cf, f, region, entry_guard):
+    """locals assigned inside the region that may be read after it before
+    being re-assigned (conservative)"""
+    assigned = {}
+    stores, _, _ = region_effects(cf, f, region)
+    for n, lv in stores:
+        if sx.kind(lv) == 'local':
+            assigned[lv[2]] = lv[1]
+    live = []
+    after = cf.reachable_from(entry_guard) - region
+    for lid, name in assigned.items():
+        for b in after:
+            exprs = f.block_exprs(cf.blocks[b])
+            for j, s in enumerate(exprs):
+                reads = False
+                for m in sx.walk(s):
+                    if sx.kind(m) == 'local' and m[2] == lid:
+                        reads = True
+                # an assignment `lid = ...` whose rhs does not read lid is a pure definition
+                pure_def = any(m[0] == 'assign' and sx.kind(m[1]) == 'local' and m[1][2] == lid and not _mentions_local(m[2], lid) for m in sx.walk(s))
+                if reads and not pure_def:
+                    # is it dominated by a definition outside the region?
+                    if not _defined_before(cf, f, region, entry_guard, b, j, lid):
+                        live.append((name, sx.line(s) if isinstance(s, list) else None))
+                    break
+            else:
+                continue
+            break
+    return live
+
+
+def _defined_before(cf, f, region, g, b, j, lid):
+    for s in f.block_exprs(cf.blocks[b])[:j]:
+        for m in sx.walk(s):
+            if m[0] == 'assign' and sx.kind(m[1]) == 'local' and m[1][2] == lid:
+                return True
+    for b3 in cf.blocks:
+        if b3 in region or b3 == b or b3 not in cf.reachable_from(g):
+            continue
+        if cf.dominates(b3, b):
+            for s in f.block_exprs(cf.blocks[b3]):
+                for m in sx.walk(s):
+                    if m[0] == 'assign' and sx.kind(m[1]) == 'local' and m[1][2] == lid:
+                        return True
+    return False
